@@ -30,7 +30,7 @@ def sites_of_dict(code, op, qpos):
     return [[qpos.get(tuple(loc), -1), p] for loc, p in op.items()]
 
 
-def project_c02(code, rng, n_conv=6, full_synd_below=20, n_synd=10):
+def project_c02(code, rng, n_conv=10, full_synd_below=20, n_synd=10):
     n = code.n
     H = code.stabilizer_matrix
     rec = {'n': int(n)}
@@ -87,9 +87,27 @@ def project_c02(code, rng, n_conv=6, full_synd_below=20, n_synd=10):
         if t == 0 and n >= 1:
             vec[:] = 0
             vec[0] = vec[n] = 1          # a Y
-        form = t % 3
-        arg = vec if form == 0 else (vec.reshape(1, -1) if form == 1
-                                     else csr_matrix(vec.reshape(1, -1)))
+        form = t % 5
+        if t == 0:
+            form = 4                         # the Y through the unsorted sparse form
+        if form == 0:
+            arg = vec
+        elif form == 1:
+            arg = vec.reshape(1, -1)
+        elif form == 2:
+            arg = csr_matrix(vec.reshape(1, -1))
+        elif form == 3:
+            # sparse row with explicitly stored zeros (e = e1 + e2; e.data %= 2)
+            mask = np.zeros_like(vec)
+            mask[::2] = 1
+            arg = (csr_matrix(((vec + mask) % 2).reshape(1, -1)) + csr_matrix(mask.reshape(1, -1))).tocsr()
+            arg.data %= 2
+        else:
+            # sparse row whose column indices are stored in decreasing order
+            # (what bsparse.insert_mod2 produces when Z is inserted before X)
+            nz = np.nonzero(vec)[0][::-1]
+            arg = csr_matrix((np.ones(len(nz), dtype=np.uint8), nz.copy(),
+                              np.array([0, len(nz)])), shape=(1, 2 * n))
         d = code.from_bsf(arg)
         back = code.to_bsf(d)
         unconv.append({'bsf': codes.bsf_to_op(vec, n),
